@@ -188,7 +188,7 @@ fn split(rng: &mut Rng, total: u64, n: usize) -> Vec<u64> {
   v
 }
 
-fn random_tx(g: &Gen, rng: &mut Rng, avail: &mut Vec<((u64, u32), u64)>) -> Option<TxPlan> {
+fn random_tx(g: &Gen, rng: &mut Rng, avail: &mut Vec<((u64, u32), u64)>, own_id: u64) -> Option<TxPlan> {
   if avail.is_empty() {
     return None;
   }
@@ -278,6 +278,13 @@ fn random_tx(g: &Gen, rng: &mut Rng, avail: &mut Vec<((u64, u32), u64)>) -> Opti
     parents.push(*rng.pick(&g.ids));
   }
   parents.push((FAKE_BASE + rng.below(5), rng.below(3) as u32));
+  // inscriptions of this very transaction (itself, an earlier or a later sibling): only those already in
+  // id_to_sequence_number when the child is written are recorded / reported in the event
+  if rng.chance(1, 3) {
+    for _ in 0..2 {
+      parents.push((own_id, rng.below(3) as u32));
+    }
+  }
   let mut recipes = Vec::new();
   for j in 0..nin {
     let n = *rng.pick(&[0, 0, 0, 1, 1, 1, 1, 2, 2, 3]);
@@ -323,7 +330,8 @@ fn random_chain(prop: &str, rng: &mut Rng) -> Line {
     let mut avail = g.live.clone();
     let mut fees = 0;
     for _ in 0..ntx {
-      if let Some(p) = random_tx(&g, rng, &mut avail) {
+      let own_id = g.next_id + 1 + plans.len() as u64;
+      if let Some(p) = random_tx(&g, rng, &mut avail, own_id) {
         let tin: u64 = p.ins.iter().map(|op| g.value_of(*op).max(avail_value(&plans, &g, *op))).sum();
         let tout: u64 = p.outs.iter().map(|(v, _)| *v).sum();
         fees += tin - tout;
@@ -416,6 +424,24 @@ pub fn scenario_mixed(sats: bool, chain: u64) -> Line {
   g.line()
 }
 
+/// parents inside one transaction: envelope 0 names itself and its later sibling (neither is in
+/// id_to_sequence_number yet: not recorded, not in the event), envelope 1 names its earlier sibling (recorded)
+pub fn scenario_sibling_parents(sats: bool) -> Line {
+  let mut g = Gen::new(0, sats, 4);
+  let own = g.next_id + 1;
+  let mut first = clean_recipe(0);
+  first[R_NPARENTS] = 2;
+  first.extend_from_slice(&[own, 0, 0, own, 1, 0]);
+  let mut second = clean_recipe(0);
+  second[R_NPARENTS] = 2;
+  second.extend_from_slice(&[own, 0, 0, own, 2, 0]);
+  g.block(
+    vec![TxPlan { ins: vec![(3, 0)], outs: vec![(1000, false), (SUBSIDY - 1000, false)], recipes: vec![first, second, recipe_ptr(0, 1000)] }],
+    vec![(SUBSIDY, false)],
+  );
+  g.line()
+}
+
 pub fn generate(prop: &str, rng: &mut Rng, tier: &str) -> Vec<Line> {
   let n = if tier == "thorough" { 600 } else if tier == "one" { 1 } else { 36 };
   let mut v = vec![
@@ -424,6 +450,7 @@ pub fn generate(prop: &str, rng: &mut Rng, tier: &str) -> Vec<Line> {
     scenario_back_pointer(true),
     scenario_mixed(true, 0),
     scenario_mixed(false, 1),
+    scenario_sibling_parents(false),
   ];
   for _ in 0..n {
     v.push(random_chain(prop, rng));
